@@ -181,6 +181,7 @@ def zipOneG (guarded : Bool) (fs : FS) (root : P) (mask : Nat) (e : Entry) : FS 
       match osMkdirAll fs path (perm e.mode &&& mask) with
       | none => (fs, false)
       | some fs1 => (fs1, true)
+    | .corrupt => (fs, false)                      -- f.Open() fails (unsupported method, bad local header): nothing is created
     | _ =>
       match osMkdirAll fs path.dropLast (0o755 &&& mask) with
       | none => (fs, false)
